@@ -239,7 +239,7 @@ func rewriteFile(fs *fileState) {
 				fs.add(s, e, false, func() string { return "simrt.Once" })
 				rep.Edits["R7 sync.Once"]++
 				needSimrt = true
-			case path == "time" && (name == "Sleep" || name == "Now" || name == "Since" || name == "After" || name == "AfterFunc" || name == "NewTimer" || name == "Timer"):
+			case path == "time" && (name == "Sleep" || name == "Now" || name == "Since" || name == "After" || name == "AfterFunc" || name == "NewTimer" || name == "Timer" || name == "NewTicker" || name == "Ticker" || name == "Tick"):
 				s, e := fs.off(x.Pos()), fs.off(x.End())
 				nm := name
 				fs.add(s, e, false, func() string { return "simrt." + nm })
